@@ -37,6 +37,12 @@ Garbage == /\ E.ev = "cmd" /\ E.op = "garbage"
            /\ E.cls = "error" /\ ~E.poisoned /\ ~E.svcdead /\ E.dbs = last
            /\ UNCHANGED <<pv, last, used>>
 
+\* bytes that are not a command line (invalid UTF-8, unterminated line, binary / control / fragmented WebSocket
+\* frame): no answer is demanded, the node must stay whole -- the probes and the new connection that follow tell
+Raw == /\ E.ev = "cmd" /\ E.op = "raw"
+       /\ ~E.poisoned /\ ~E.svcdead
+       /\ last' = E.dbs /\ UNCHANGED <<pv, used>>
+
 ProbeSet == /\ E.ev = "cmd" /\ E.op = "probe-set"
             /\ E.cls = "ok" /\ ~E.poisoned /\ ~E.svcdead
             /\ "d" \in DOMAIN E.dbs /\ "probe" \in DOMAIN E.dbs["d"].keys
@@ -47,7 +53,7 @@ ProbeGet == /\ E.ev = "cmd" /\ E.op = "probe-get"
             /\ E.cls = "value" /\ E.rv = pv /\ ~E.poisoned /\ ~E.svcdead
             /\ last' = E.dbs /\ UNCHANGED <<pv, used>>
 
-TraceNext == l <= Len(Rec) /\ l' = l + 1 /\ (Reset \/ Setup \/ Fuzz \/ Garbage \/ ProbeSet \/ ProbeGet)
+TraceNext == l <= Len(Rec) /\ l' = l + 1 /\ (Reset \/ Setup \/ Fuzz \/ Garbage \/ Raw \/ ProbeSet \/ ProbeGet)
 TraceSpec == TraceInit /\ [][TraceNext]_tvars
 
 Progress ==
